@@ -133,7 +133,8 @@ def ensure_makefile():
             raise MachineryError("coq_makefile failed: " + out[-400:])
 
 
-def build(prop_files: List[str], need_driver: bool = True, jobs: int = 16) -> Build:
+def build(prop_files: List[str], need_driver: bool = True, jobs: int = 16,
+          extract: str = "FA/Extract/Extract.v", driver_src: str = "driver.ml", tag: str = "") -> Build:
     """prop_files: .v files (relative to coq/) whose theorems are this property's obligations;
     the last one is the Properties/Cxx.v file carrying Print Assumptions."""
     b = Build()
@@ -141,14 +142,14 @@ def build(prop_files: List[str], need_driver: bool = True, jobs: int = 16) -> Bu
     with BuildLock():
         rc, out = sh([sys.executable, os.path.join(ROOT, "harness", "sync_tables.py")],
                      env=dict(os.environ, FUNC_ADL_REPO=REPO))
-        b.tables_status = out.strip()
+        b.tables_status = " ".join(out.split())
         if rc != 0:
             b.tables_error = out.strip()
         ensure_makefile()
         b.gate = grep_gate()
         targets = [f[:-2] + ".vo" for f in prop_files]
         if need_driver:
-            targets.append("FA/Extract/Extract.vo")
+            targets.append(extract[:-2] + ".vo")
         rc, out = sh(["timeout", "1500", "make", "-k", "-j%d" % jobs] + targets, cwd=COQ, timeout=1600)
         b.logs["make"] = out[-6000:]
         for f in prop_files:
@@ -171,7 +172,7 @@ def build(prop_files: List[str], need_driver: bool = True, jobs: int = 16) -> Bu
                 b.compiled[pf] = False
                 b.broken.append(pf)
         if need_driver:
-            b.driver_ok = build_driver(out)
+            b.driver_ok = build_driver(out, extract, driver_src, tag)
     b.make_s = time.time() - t0
     return b
 
@@ -181,23 +182,28 @@ def _failed_in(make_out: str, f: str) -> bool:
         bool(re.search(re.escape(f[:-2] + ".vo") + r"\] Error", make_out))
 
 
-def build_driver(make_out: str = "") -> bool:
-    ext_vo = os.path.join(COQ, "FA", "Extract", "Extract.vo")
+def build_driver(make_out: str = "", extract: str = "FA/Extract/Extract.v", driver_src: str = "driver.ml",
+                 tag: str = "") -> bool:
+    """Extract the models named in `extract` (a .v file relative to coq/ that ends with
+    `Extraction "model.ml" ...`) and build them with ocaml/sx.ml + ocaml/<driver_src> into
+    ocaml/_gen/<tag>/driver."""
+    ext_vo = os.path.join(COQ, extract[:-2] + ".vo")
     if not os.path.exists(ext_vo):
         return False
+    GEN = os.path.join(OCAML, "_gen", tag) if tag else os.path.join(OCAML, "_gen")
     os.makedirs(GEN, exist_ok=True)
     drv = os.path.join(GEN, "driver")
-    srcs = [os.path.join(OCAML, "sx.ml"), os.path.join(OCAML, "driver.ml")]
+    srcs = [os.path.join(OCAML, "sx.ml"), os.path.join(OCAML, driver_src)]
     stamp = max([os.path.getmtime(ext_vo)] + [os.path.getmtime(s) for s in srcs])
     if os.path.exists(drv) and os.path.getmtime(drv) >= stamp:
         return True
     # re-run extraction in _gen (writes model.ml/.mli there)
-    rc, out = sh(["timeout", "600", "coqc", "-Q", os.path.join(COQ, "FA"), "FA",
-                  os.path.join(COQ, "FA", "Extract", "Extract.v")], cwd=GEN, timeout=700)
+    rc, out = sh(["timeout", "600", "coqc", "-Q", os.path.join(COQ, "FA"), "FA", "-o", os.path.join(GEN, os.path.basename(extract)[:-2] + ".vo"),
+                  os.path.join(COQ, extract)], cwd=GEN, timeout=700)
     if rc != 0:
         raise MachineryError("extraction failed: " + out[-800:])
-    for s in srcs:
-        subprocess.check_call(["cp", s, GEN])
+    subprocess.check_call(["cp", srcs[0], os.path.join(GEN, "sx.ml")])
+    subprocess.check_call(["cp", srcs[1], os.path.join(GEN, "driver.ml")])
     rc, out = sh(["ocamlfind", "ocamlopt", "-w", "-a", "-O2", "model.mli", "model.ml", "sx.ml", "driver.ml",
                   "-o", "driver"], cwd=GEN, timeout=900)
     if rc != 0:
@@ -225,8 +231,8 @@ def parse_assumptions(out: str) -> Dict[str, List[str]]:
 # ---------------------------------------------------------------- model driver
 
 class Driver:
-    def __init__(self):
-        self.path = os.path.join(GEN, "driver")
+    def __init__(self, tag: str = ""):
+        self.path = os.path.join(OCAML, "_gen", tag, "driver") if tag else os.path.join(GEN, "driver")
 
     def run(self, requests: List[str]) -> List[str]:
         if not requests:
@@ -273,12 +279,12 @@ def load_known(prop: str):
 
 
 class Ctx:
-    def __init__(self, prop: str, tier: str, seed: int):
+    def __init__(self, prop: str, tier: str, seed: int, tag: str = ""):
         self.prop = prop
         self.tier = tier
         self.seed = seed
         self.rng = random.Random((seed, prop).__repr__())
-        self.driver = Driver()
+        self.driver = Driver(tag)
         self.failures: List[Failure] = []
         self.evaluations = 0
         self.distinct = set()
